@@ -70,7 +70,7 @@ def case_st(draw):
     elif regime == "deep" and case["ndim"] == 3:
         # levels beyond 14, the deepest cells hugging a coarse cube boundary from below
         case["levelmin"] = draw(st.sampled_from([2, 3]))
-        case["levelmax"] = draw(st.sampled_from([15, 16, 17, 19, 20]))
+        case["levelmax"] = draw(st.sampled_from([15, 16, 17, 19, 20, 21]))
         case["refine_p"] = [0.0]
         case["deep_toward"] = [draw(st.sampled_from([0.25, 0.5, 0.75])) for _ in range(3)]
         case["ncpu"] = draw(st.integers(3, 9))
